@@ -316,7 +316,7 @@ pub fn explore(ctx: &Ctx, obs: &Observer) {
     });
     if ctx.tier == Tier::Thorough {
         // spot checks at larger lg_k: default runs with single deviations on a coarse grid
-        let big: Vec<Cfg> = [10u8, 12, 16].iter().flat_map(|&lg_k| [3usize, 0].into_iter().map(move |rf| Cfg { lg_k, rf, p: 1.0, seed: 9001 })).collect();
+        let big: Vec<Cfg> = [10u8, 12, 14].iter().flat_map(|&lg_k| [3usize, 0].into_iter().map(move |rf| Cfg { lg_k, rf, p: 1.0, seed: 9001 })).collect();
         big.par_iter().for_each(|cfg| {
             let k = 1usize << cfg.lg_k;
             let _ = k;
@@ -349,7 +349,7 @@ pub fn run(ctx: &Ctx) -> i32 {
     let cov = json!({
         "exhaustive": true,
         "bounds": {
-            "configs": "lg_k {5,6,8} (thorough adds 7 and spot runs at 10,12,16) x 4 resize factors x p {1, 0.5, 2^-10} x seeds",
+            "configs": "lg_k {5,6,8} (thorough adds 7 and spot runs at 10,12,14) x 4 resize factors x p {1, 0.5, 2^-10} x seeds",
             "E2": "five default runs of 4k offers (ascending, descending, alternating, two full-probe collision classes, public update of items against the reference hash) with every single deviation {theta-1, theta, 1, duplicate of min/max retained, max+1, trim, reset; on the public-update run also the ITEMS whose hash is theta / the largest retained / the smallest screened-out / the smallest} on a position grid; bound 2 at lg_k 5 (6)",
             "E1": "BFS depth 4-6 from the empty state and from the states just before each resize/rebuild, merged on (retained set, theta, table size)",
         },
